@@ -11,6 +11,7 @@ import (
 	"encoding/hex"
 	"fmt"
 	"os"
+	"runtime"
 	"sort"
 	"strings"
 	"sync"
@@ -57,22 +58,22 @@ type inflight struct {
 }
 
 type env struct {
-	rid     string
-	ctx     context.Context
-	cancel  func()
-	disp    *pfake.Dispatch
-	target  *pfake.Target
-	metaop  *pfake.MetaOp
-	mgr     api.ChannelManager
-	sched   *pfake.Sched
-	colls   map[string]*collDef
-	cur     map[string]*inflight // source vchannel -> pack in flight
-	outs    map[string]<-chan *api.ReplicateMsg
-	outKeys []string
-	task    string
-	bad     string
-	tt      int
-	holdEvs bool
+	rid      string
+	ctx      context.Context
+	cancel   func()
+	disp     *pfake.Dispatch
+	target   *pfake.Target
+	metaop   *pfake.MetaOp
+	mgr      api.ChannelManager
+	sched    *pfake.Sched
+	colls    map[string]*collDef
+	cur      map[string]*inflight // source vchannel -> pack in flight
+	outs     map[string]<-chan *api.ReplicateMsg
+	outKeys  []string
+	task     string
+	bad      string
+	tt       int
+	holdEvs  bool
 	holdOuts bool // the consumer of the API event channel is stuck: events are not drained until "drainevs"
 }
 
@@ -127,6 +128,15 @@ func (c *collDef) pbInfo() *pb.CollectionInfo {
 	c.info = &pb.CollectionInfo{ID: c.ID, DbId: 1, Schema: &schemapb.CollectionSchema{Name: c.Name},
 		VirtualChannelNames: c.SrcV, PhysicalChannelNames: pch, StartPositions: sp, State: st, CreateTime: 1, ShardsNum: int32(len(c.SrcV))}
 	return c.info
+}
+
+// goid: id of the calling goroutine (first line of its stack: "goroutine N [running]:")
+func goid() int64 {
+	var buf [64]byte
+	n := runtime.Stack(buf[:], false)
+	var id int64
+	fmt.Sscanf(string(buf[:n]), "goroutine %d ", &id)
+	return id
 }
 
 func newEnv(p *hx.Plan) *env {
@@ -540,6 +550,52 @@ func run(p *hx.Plan) []hx.Event {
 				sk = append(sk, hx.Event{"ch": x.ChannelName, "ts": int(x.Timestamp)})
 			}
 			ev["seeks"] = sk
+		case "start2":
+			// the same collection is announced twice at the same time (the catalog listing and the watch both see a collection
+			// created while the task starts; two tasks of one target covering it): two StartReadCollection calls in flight, each
+			// held at its second look at the downstream catalog until both have got there
+			c := e.colls[hx.S(st, "c")]
+			ev["c"] = c.Name
+			var gmu sync.Mutex
+			cnt := map[int64]int{}
+			arrived := 0
+			both := make(chan struct{})
+			e.target.InfoGate = func(db, name string) {
+				if name != c.Name {
+					return
+				}
+				id := goid()
+				gmu.Lock()
+				cnt[id]++
+				second := cnt[id] == 2
+				if second {
+					arrived++
+					if arrived == 2 {
+						close(both)
+					}
+				}
+				gmu.Unlock()
+				if second {
+					select {
+					case <-both:
+					case <-time.After(3 * time.Second):
+					}
+				}
+			}
+			errs := make([]bool, 2)
+			var wg sync.WaitGroup
+			for i := 0; i < 2; i++ {
+				i := i
+				wg.Add(1)
+				go func() {
+					defer wg.Done()
+					err := e.mgr.StartReadCollection(e.taskCtx(), &model.DatabaseInfo{ID: 1, Name: c.DB}, c.pbInfo(), nil, map[string]uint64{})
+					errs[i] = err != nil
+				}()
+			}
+			wg.Wait()
+			e.target.InfoGate = nil
+			ev["errs"], ev["seeks"] = errs, []hx.Event{}
 		case "release": // let a held Register proceed
 			ev["v"] = hx.S(st, "v")
 			ev["ok"] = e.disp.ReleaseHold(hx.S(st, "v"))
